@@ -241,6 +241,13 @@ class LocalStorageBackend(StorageBackend):
         logger.debug(f"Writing file: {path} ({len(content)} bytes)")
 
         full_path = self._resolve_path(path)
+        if full_path == self._real_base_path():
+            # "", ".", "data/.." ... denote the table root itself. Its parent
+            # directory lies OUTSIDE the table, and the temp file of the atomic
+            # write below would be created (and removed again) there.
+            raise ValueError(
+                f"Security Error: path '{path}' denotes the table root itself, not a file inside it"
+            )
         dir_path = os.path.dirname(full_path)
         os.makedirs(dir_path, exist_ok=True)
 
